@@ -104,6 +104,14 @@ var c06Reqs = []c06Req{
 	{"frag-twice-3", `{ p: a { ...F } q: a { ...F @skip(if:true) name } } fragment F on A { id aOnly }`, "", nil, nil},
 	// resolver-less fields with literal arguments seen (and mutated) by a FieldResolver source
 	{"fieldresolver-args", `{ plainFR { echoArg(x:5, y:2) e2: echoArg n } }`, "", nil, nil},
+	// string literals that differ only by an escape
+	{"str-escapes", "{ x: echo(s: \"a\\\\nb\") y: echo2(s: \"a\\nb\") z: echo(s: \"q\\\"r\") }", "", nil, nil},
+	// the normalised operation is what gets validated: inline fragments in it
+	{"inline-only-use-of-var", `query($n:Int){ echo(i:1) ... on Query { nodes(n:$n) { id } } }`, "", []map[string]interface{}{v("n", 1), nil}, nil},
+	{"inline-invalid-inside", `{ echo(i:1) ... on Query { nope } }`, "", nil, nil},
+	{"inline-bad-arg-inside", `{ echo(i:2) ... { echo2(zz:1) } }`, "", nil, nil},
+	// input objects that omit defaulted fields
+	{"obj-omits-defaults", `{ echo(f:{tags:["x"]}) echo2(f:{st:"s"}) }`, "", nil, nil},
 	// F8 repeated fields
 	{"rep-equal-lit", `{ echo(i:1) echo(i:1) }`, "", nil, nil},
 	{"rep-equal-lit-nested", `{ a { name(up:true) } a { name(up:true) } }`, "", nil, nil},
